@@ -40,6 +40,37 @@ def run(ctx, case):
     ok, w = ctx.must(lambda: specs.lib_write(blk), f"{t}/encode", f"encoding a valid {t} block")
     if not ok:
         return
+    if t in ("emg", "platCal", "platData", "data3D", "force3D") and 0 < len(codec.items(spec)) <= 8:
+        # the block's item objects are ALSO put into another block of the same kind - re-packed in reverse order, channels numbered from 0:
+        # one object in two containers. What THIS block encodes to is its own business and stays what it was.
+        import copy as _copy
+
+        empty = _copy.deepcopy(spec)
+        for key in ("signals", "plats", "tracks"):
+            if key in empty:
+                empty[key] = []
+        if t == "data3D" and empty.get("links"):
+            empty["links"] = []
+        try:
+            other = specs.build(empty, hints)
+            mine = [x[1] if isinstance(x, tuple) else x for x in list(blk)]
+            for i, it in enumerate(reversed(mine)):
+                if t == "emg":
+                    other.addSignal(it, channel=i)
+                elif t in ("platCal", "platData"):
+                    other.add_platform(it, channel=i)
+                else:
+                    other.add_track(it)
+            ctx.label("items-also-in-another-block")
+            lent = True
+        except Exception:  # noqa - the other block's business
+            lent = False
+        if lent:
+            ok, w_again = ctx.must(lambda: specs.lib_write(blk), f"{t}/encode-after-lending-items", f"encoding a {t} block whose items were also added to another block")
+            if ok and w_again != w:
+                i = next((k for k in range(min(len(w), len(w_again))) if w[k] != w_again[k]), min(len(w), len(w_again)))
+                ctx.fail(f"{t}/encoding-changed-by-another-blocks-add", f"{t}: after the block's item objects were also added to ANOTHER block (other order, channels from 0) this "
+                                                                        f"block encodes differently (first difference at byte {i} of {len(w)})")
     with poison.poisoned(case.get("poison", 0x41)):
         ok, res = ctx.must(lambda: specs.lib_decode(t, spec["format"], w), f"{t}/decode", f"decoding what the library wrote for {t}")
     if ok:
